@@ -112,7 +112,8 @@ def open_pairs(tier, seed):
         cfg = {'asn': rnd.choice([65000, 65000, 4200000001]), 'hold': rnd.choice([0, 3, 90, 180, 65535]), 'asn4': rnd.random() < 0.7, 'refresh': rnd.random() < 0.7, 'extended': rnd.random() < 0.5, 'addpath': rnd.choice([0, 0, 1, 2, 3]), 'families': rnd.choice(fam_sets)}
         if cfg['asn'] > 65535:
             cfg['asn4'] = True
-        pf = rnd.choice(fam_sets)
+        # (): a plain RFC 4271 speaker, no Multiprotocol capability at all
+        pf = rnd.choice(fam_sets + [()])
         peer = {'asn': rnd.choice([65001, 65000, 4200000002]), 'hold': rnd.choice([0, 3, 30, 180, 65535]), 'families': list(pf), 'asn4': rnd.random() < 0.7, 'refresh': rnd.random() < 0.7, 'enhanced_refresh': rnd.random() < 0.4, 'extended': rnd.random() < 0.5, 'addpath': ({f: rnd.choice([1, 2, 3, 1, 2, 3, 0, 4, 5, 6, 7, 255]) for f in pf} if rnd.random() < 0.5 else {}), 'order': rnd.randint(0, 99), 'duplicate': rnd.random() < 0.2}
         if peer['asn'] > 65535:
             peer['asn4'] = True
